@@ -15,12 +15,33 @@ pub fn scenarios(thorough: bool) -> Vec<Scenario> {
         c3.merges = true;
         c3.per_denom = 1;
         v.push(sc("custom02-utxo-3tx", NetID::Custom02, 0, c3, 5));
+        // locked coins: a stake (with change), then spends of its outputs in every input position
+        let mut st = AlphaCfg::base();
+        st.per_denom = 1;
+        st.stakes = true;
+        st.splits = false;
+        st.burns = false;
+        st.mints = false;
+        st.overpay = false;
+        st.faucets = false;
+        st.pairs = false;
+        st.max_txs_per_block = 3;
+        st.seal_actions = vec![None];
+        v.push(sc("custom02-stake-and-spends", NetID::Custom02, 0, st, 6));
     }
     if thorough {
         let mut c3 = cfg.clone();
         c3.max_txs_per_block = 3;
         c3.merges = true;
         v.push(sc("custom02-utxo-3tx", NetID::Custom02, 0, c3, 6));
+        let mut st = AlphaCfg::base();
+        st.per_denom = 1;
+        st.stakes = true;
+        st.mints = false;
+        st.faucets = false;
+        st.pairs = false;
+        st.max_txs_per_block = 3;
+        v.push(sc("custom02-stake-and-spends", NetID::Custom02, 0, st, 7));
         v.push(sc("custom08-utxo", NetID::Custom08, 0, cfg.clone(), 6));
         v.push(sc("testnet-utxo", NetID::Testnet, 0, cfg.clone(), 6));
         v.push(sc("custom02-fees", NetID::Custom02, 65536, cfg, 5));
